@@ -18,9 +18,10 @@ import (
 // Each direction ("half") works in one of two modes:
 //   - sync: net.Pipe semantics. A Write returns only after all its bytes were
 //     consumed and a Read never returns bytes of two different Writes. Used for
-//     handshakes (the handshake code wraps the raw conn in a throw-away bufio
-//     reader, so a coalescing transport would let it swallow the next message;
-//     that is outside what C18 states, see the report).
+//     handshakes: what arrives together is then decided by the script (one Write =
+//     one read), e.g. the "honest-coalesced" session sends the ephemeral key and the
+//     auth frame in one Write (the handshake used to decode the key through a
+//     throw-away read-ahead buffer that swallowed the auth frame: fixed, cfeaa12).
 //   - buffered: a bounded byte buffer. Writes are cut into random pieces, Reads
 //     return random-length prefixes of what is available (1 byte ... everything),
 //     a small capacity makes a fast writer wait for a slow reader and vice versa.
